@@ -165,6 +165,39 @@ theorem seqInternalF_rec (l : List (Nat × Disp)) (st : FState) :
       simp only [hx, Bool.not_true] at h1
       simpa using h1.trans (ih (setInternalF st s d).1)
 
+theorem getDisposition_rec (s : FSys) (sig : Nat) :
+    Rec s (s.getDisposition sig).2 ((s.getDisposition sig).1.isNone) := by
+  unfold FSys.getDisposition
+  split
+  · exact ⟨_, rfl, by simp [anyFailed]⟩
+  · exact ⟨_, rfl, by simp [anyFailed]⟩
+
+theorem insertF_rec (fs : FSys) (e : Option GrandState) (c : Nat) :
+    Rec fs (GrandState.insertFromSystemIfVacantF fs e c).1
+      ((GrandState.insertFromSystemIfVacantF fs e c).2.isNone) := by
+  unfold GrandState.insertFromSystemIfVacantF
+  cases e with
+  | some g => simpa using Rec.refl fs
+  | none =>
+    simp only
+    by_cases hc : c ≠ 0
+    · rw [if_pos hc]
+      have h := getDisposition_rec fs c
+      cases h1 : (fs.getDisposition c).1 with
+      | none => simpa [h1] using h
+      | some d => simpa [h1] using h
+    · rw [if_neg hc]
+      simpa using Rec.refl fs
+
+theorem peekStateF_rec (st : FState) (c : Nat) :
+    Rec st.sys (peekStateF st c).1.sys ((peekStateF st c).2.isNone) := by
+  have h := insertF_rec st.sys (get st.traps c) c
+  unfold peekStateF
+  simp only
+  cases h2 : (GrandState.insertFromSystemIfVacantF st.sys (get st.traps c) c).2 with
+  | none => simpa [h2] using h
+  | some g => simpa [h2] using h
+
 theorem newCalls_of_rec {st st' : FState} {f : Bool} (h : Rec st.sys st'.sys f) :
     anyFailed (newCalls st st') = f := by
   obtain ⟨L, e, g⟩ := h
@@ -200,7 +233,10 @@ theorem honest_step (st : FState) (op : Op) :
   | disableStoppers => exact hseq _
   | disableAll => exact hseq _
   | enterSubshell ii ks => rfl
-  | peek c => rfl
+  | peek c =>
+    simp only [resultF, stepF, honest]
+    rw [newCalls_of_rec (peekStateF_rec st c)]
+    cases (peekStateF st c).2 <;> rfl
   | catchSignal s => rfl
   | takeCaught => rfl
   | takeIfCaught s => rfl
@@ -277,7 +313,7 @@ theorem log_grows (st : FState) (op : Op) : ∃ L, (stepF st op).sys.log = st.sy
     | true =>
       simp only [if_true]
       exact (h0.trans (ignoreIfVacantF_grows _ SIGINT)).trans (ignoreIfVacantF_grows _ SIGQUIT)
-  | peek c => exact Grows.refl _
+  | peek c => exact (peekStateF_rec st c).grows
   | catchSignal s => exact Grows.refl _
   | takeCaught => exact Grows.refl _
   | takeIfCaught s => exact Grows.refl _
